@@ -82,6 +82,7 @@ func c19Facts(l *leanDefs) {
 	key := ""                // current table key
 	var row *c19Row          // row being filled
 	var groupLabels []string // labels whose branch assigns BINDING_CONTEXT_GROUP_NAME
+	noGlob := false
 	flush := func() {
 		if row != nil {
 			rows = append(rows, *row)
@@ -134,7 +135,9 @@ func c19Facts(l *leanDefs) {
 			}
 		case "hook::_get_possible_handler_names":
 			switch {
-			case t == "":
+			case t == "" || strings.HasPrefix(t, "#"):
+			case t == "set -f":
+				noGlob = true // names are not subject to pathname expansion (the function runs in a command substitution)
 			case c19ReIfBind.MatchString(t):
 				flush()
 				key = "binding=" + c19ReIfBind.FindStringSubmatch(t)[1]
@@ -249,5 +252,6 @@ func c19Facts(l *leanDefs) {
 	l.def("c19DefaultBinding", "String", fmt.Sprintf("%q", defBinding), src+" hook::run")
 	l.def("c19Fallback", "String", fmt.Sprintf("%q", fallback), src+" hook::run")
 	l.def("c19RunSteps", "List String", leanStrList(runSteps), src+" hook::run (order of the loop body statements)")
+	l.def("c19NoGlob", "Bool", fmt.Sprintf("%v", noGlob), src+" hook::_get_possible_handler_names (set -f)")
 	l.def("c19Stale", "Bool", fmt.Sprintf("%v", stale), src)
 }
